@@ -8,7 +8,8 @@ import json, os, shutil, subprocess, concurrent.futures as cf
 from vlib import core, httpcheck as hc, httpgen as hg
 
 DEVS = {"codegen.param_alias_default": "param/alias+default", "codegen.api_error_user_type": "error/api-level-user-type",
-        "codegen.recursive_result_type_views": "views/recursive-result-type"}
+        "codegen.recursive_result_type_views": "views/recursive-result-type",
+        "codegen.primitive_payload_in_header": "payload/whole-in-header"}
 
 
 def family_programs(ctx, quick):
@@ -51,6 +52,9 @@ def design_class(sh):
     for a in sh["pa"] + sh["ra"]:
         if a["loc"] in ("query", "header", "cookie") and a["nest"] == "alias" and a["mode"] == "default":
             return "param/alias+default"
+    for a in sh["pa"]:
+        if a["loc"] == "header" and a["nest"] in hg.WHOLE:
+            return "payload/whole-in-header"
     a = (sh["pa"] + sh["ra"])[0]
     return "plain"
 
